@@ -402,7 +402,21 @@ pub fn msg_6492(
 /// An RFC 8181 query of the harness' publisher.
 pub fn msg_8181(rng: &mut Rng, publisher: &str) -> publication::Message {
     let base = format!("{}{}/", aworld::RSYNC_BASE, publisher);
-    match rng.below(3) {
+    match rng.below(4) {
+        3 => {
+            // several elements in one delta
+            let mut delta = PublishDelta::empty();
+            for _ in 0..2 + rng.below(3) {
+                let uri = uri::Rsync::from_str(&format!(
+                    "{base}d/g{:06x}.roa", rng.below(1 << 24)
+                )).unwrap();
+                let content = rng.some_bytes(60);
+                delta.add_publish(Publish::new(
+                    None, uri, Base64::from_content(&content)
+                ));
+            }
+            publication::Message::delta(delta)
+        }
         0 => publication::Message::list_query(),
         1 => {
             let mut delta = PublishDelta::empty();
